@@ -238,6 +238,9 @@ def run(ctx):
 
     E.r_discovered_append(prog, rep)
     E.r_discovered_demanded(prog, rep)
+    # a recorded (discovered) dependency is honoured by the same scan as a declared one
+    for rule_fn in (E.r_scan_guards, E.r_scan_waits, E.r_epoch_cmp, E.r_epoch_persist, E.r_parallel_vectors, E.r_singleuse_bits):
+        rule_fn(prog, rep)
 
 
 def owner_of(f):
